@@ -169,6 +169,178 @@ theorem purge_paused_by_blacklist (r : Res) (keep : Int) (rv : RV) (hrv : rv ∈
   have : r.versions.any (·.bl) = true := List.any_eq_true.mpr ⟨rv, hrv, hbl⟩
   simp [this]
 
+/-! ### Blacklist -/
+
+/-- The last non-blacklisted version cannot be blacklisted: `Blacklist` succeeds only if at least two
+    non-blacklisted (non-dev) versions exist, at least one is left afterwards, a refusal changes nothing, and a
+    resource that has a non-blacklisted version always keeps one. -/
+theorem cannot_blacklist_last (fl : Flags) (r : Res) (version : Str) :
+    ((r.blacklist fl version).2 = none →
+      2 ≤ validCount r.versions ∧ 1 ≤ validCount (r.blacklist fl version).1.versions) ∧
+    (validCount r.versions ≤ 1 → (r.blacklist fl version).2 = some .last) ∧
+    ((r.blacklist fl version).2 ≠ none → (r.blacklist fl version).1 = r) ∧
+    (1 ≤ nonBl r.versions → 1 ≤ nonBl (r.blacklist fl version).1.versions) := by
+  unfold Res.blacklist
+  split
+  · rename_i h
+    exact ⟨fun h' => absurd h' (by simp), fun _ => rfl, fun _ => rfl, fun h' => h'⟩
+  · rename_i h
+    split
+    · have h1 := validCount_updateFirst_bl (fun rv => rv.ver.str == version) r.versions
+      have h2 := validCount_perm (sortDesc_perm (updateFirst (fun rv => rv.ver.str == version)
+        (fun rv => { rv with bl := true }) r.versions))
+      have h3 := validCount_le_nonBl (sortDesc (updateFirst (fun rv => rv.ver.str == version)
+        (fun rv => { rv with bl := true }) r.versions))
+      simp only [Res.selectVersion]
+      refine ⟨fun _ => ⟨by omega, by omega⟩, fun h' => by omega, fun h' => absurd rfl h', fun _ => by omega⟩
+    · exact ⟨fun h' => absurd h' (by simp), fun h' => by omega, fun _ => rfl, fun h' => h'⟩
+
+/-- A successful `Blacklist` marks the named version and re-selects: the new selection is again the one the
+    documented order prescribes (now with that version blacklisted). -/
+theorem blacklist_reselects (fl : Flags) (r : Res) (version : Str) (hn : VerNodup r.versions)
+    (hok : (r.blacklist fl version).2 = none) :
+    (∃ rv ∈ (r.blacklist fl version).1.versions, rv.bl = true ∧ rv.ver.str = version) ∧
+    ∃ v rv, (r.blacklist fl version).1.selected = some v ∧ rv ∈ (r.blacklist fl version).1.versions ∧ rv.ver = v ∧
+      Prescribed fl (r.blacklist fl version).1.index (r.blacklist fl version).1.versions rv := by
+  obtain ⟨hany, hshape⟩ := blacklist_ok_shape hok
+  rw [hshape]
+  generalize hu : updateFirst (fun rv => rv.ver.str == version) (fun rv => { rv with bl := true }) r.versions = upd
+  have hm := updateFirst_map_ver (p := fun rv => rv.ver.str == version) (f := fun rv => { rv with bl := true })
+    (fun _ => rfl) r.versions
+  rw [hu] at hm
+  have hnu : VerNodup upd := verNodup_of_map_eq hm hn
+  constructor
+  · obtain ⟨rv, hrv, h1, h2⟩ := updateFirst_bl_mem r.versions hany
+    rw [hu] at hrv
+    exact ⟨rv, mem_sortDesc.mpr hrv, h1, h2⟩
+  · have hsel := select_prescribed fl { r with versions := upd } hnu
+    simp only [Res.selectVersion] at hsel ⊢
+    cases hc : selectFrom fl r.index (sortDesc upd) with
+    | none =>
+      simp only [hc, Option.map_none] at hsel
+      subst hsel
+      cases hr : r.versions with
+      | nil => rw [hr] at hany; simp at hany
+      | cons a t => rw [hr] at hu; unfold updateFirst at hu; split at hu <;> cases hu
+    | some rv =>
+      simp only [hc, Option.map_some] at hsel ⊢
+      obtain ⟨rv', hm', hv', hp'⟩ := hsel
+      exact ⟨rv.ver, rv', rfl, mem_sortDesc.mpr hm', hv', prescribed_congr (fun x => mem_sortDesc.symm) hp'⟩
+
+/-! ### GetFile -/
+
+/-- `GetFile` hands out exactly the selected version (selecting first if nothing is selected yet), under its
+    versioned path, marks it active and its file is on disk; the only refusal is "not available locally" when the
+    registry is offline. -/
+theorem getFile_hands_out_selected (fl : Flags) (id : Str) (r : Res) (hinv : ResInv r) (hne : r.versions ≠ []) :
+    match (r.getFile fl id).2 with
+    | .file v p => (r.getFile fl id).1.selected = some v ∧ (r.getFile fl id).1.active = some v ∧
+        (v, 0) ∈ (r.getFile fl id).1.disk ∧ p = getVersionedPath id v.str ∧
+        (r.selected = none → ∃ rv ∈ r.versions, rv.ver = v ∧ Prescribed fl r.index r.versions rv)
+    | .errNotLocal => fl.online = false ∧ (r.getFile fl id).1.active = r.active
+    | _ => False := by
+  unfold Res.getFile
+  simp only []
+  have hsp := select_prescribed fl r hinv.1
+  generalize hg : (if r.selected.isNone then r.selectVersion fl else r) = r1
+  have h1 : ResInv r1 := by
+    subst hg; split
+    · exact selectVersion_inv hinv
+    · exact hinv
+  have hact : r1.active = r.active := by subst hg; split <;> rfl
+  have hsel1 : ∀ v, r1.selected = some v → r.selected = none → ∃ rv ∈ r.versions, rv.ver = v ∧ Prescribed fl r.index r.versions rv := by
+    intro v hv hnone
+    subst hg
+    simp only [hnone, Option.isNone_none, if_true] at hv
+    rw [hv] at hsp
+    exact hsp
+  have hsome : r1.selected ≠ none := by
+    subst hg
+    split
+    · intro hnone
+      rw [hnone] at hsp
+      exact hne hsp
+    · rename_i h; simpa using h
+  cases hsel : r1.selected with
+  | none => exact absurd hsel hsome
+  | some v =>
+    simp only []
+    obtain ⟨rv, hrv, hrvv⟩ := h1.2.1 v hsel
+    cases hf : r1.versions.find? (fun rv => rv.ver == v) with
+    | none =>
+      have := List.find?_eq_none.mp hf rv hrv
+      simp [hrvv] at this
+    | some rv' =>
+      simp only []
+      have hmem := List.mem_of_find?_eq_some hf
+      have hver : rv'.ver = v := by have := List.find?_some hf; simpa using this
+      have hdisk : rv'.avail = true → (v, 0) ∈ r1.disk := fun ha => hver ▸ h1.2.2.2 rv' hmem ha
+      cases ha : rv'.avail with
+      | true =>
+        simp only [if_true]
+        exact ⟨trivial, trivial, hdisk ha, trivial, hsel1 v hsel⟩
+      | false =>
+        cases hon : fl.online with
+        | false =>
+          simp only [Bool.false_eq_true, if_false, Bool.not_false, if_true]
+          exact ⟨trivial, hact⟩
+        | true =>
+          simp only [Bool.false_eq_true, if_false, Bool.not_true]
+          exact ⟨trivial, trivial, mem_diskAdd.mpr (Or.inl rfl), trivial, hsel1 v hsel⟩
+
+/-! ### Every history -/
+
+/-- In every state reachable by any sequence of API calls, for every resource: version numbers are a key of
+    `Versions` (so the hypotheses `VerNodup` above always hold), the selected and the active version are listed,
+    and every version listed as available has its file on disk. -/
+theorem reachable_inv (ops : List Op) : ∀ p ∈ (run {} ops).res, ResInv p.2 :=
+  run_inv ops {} stInv_init
+
+/-- After `SelectVersions` in any reachable state, every resource has selected the version the documented order
+    prescribes for its versions, its index and the current registry flags. -/
+theorem history_select_prescribed (ops : List Op) :
+    ∀ p ∈ (step (run {} ops) .select).1.res,
+      match p.2.selected with
+      | none => p.2.versions = []
+      | some v => ∃ rv ∈ p.2.versions, rv.ver = v ∧ Prescribed (run {} ops).fl p.2.index p.2.versions rv := by
+  intro p hp
+  simp only [step, St.mapRes] at hp
+  obtain ⟨q, hq, rfl⟩ := List.mem_map.mp hp
+  have hinv := reachable_inv ops q hq
+  have := select_prescribed (run {} ops).fl q.2 hinv.1
+  simp only []
+  cases hs : (q.2.selectVersion (run {} ops).fl).selected with
+  | none =>
+    rw [hs] at this
+    simp only [Res.selectVersion, this, sortDesc]
+  | some v =>
+    rw [hs] at this
+    obtain ⟨rv, hm, hv, hpr⟩ := this
+    exact ⟨rv, mem_sortDesc.mpr hm, hv, prescribed_congr (fun x => mem_sortDesc.symm) hpr⟩
+
+/-- `Purge(keep)` in any reachable state, for every resource: no file of a required version is removed and no
+    required version unlisted; if anything is purged at least `max keep 2` further versions stay; files are removed
+    only for versions that are unlisted; afterwards the resource lists as available only versions whose files exist. -/
+theorem history_purge_safe (ops : List Op) (keep : Int) :
+    ∀ q ∈ (run {} ops).res,
+      (q.1, q.2.purge keep) ∈ (step (run {} ops) (.purge keep)).1.res ∧
+      (∀ v, Required q.2 v → (∀ k, (v, k) ∈ q.2.disk → (v, k) ∈ (q.2.purge keep).disk) ∧
+        ∀ rv ∈ q.2.versions, rv.ver = v → rv ∈ (q.2.purge keep).versions) ∧
+      (((q.2.purge keep).versions.length ≠ q.2.versions.length ∨ (q.2.purge keep).disk ≠ q.2.disk) →
+        ∃ further : List RV, further.length = keepOf keep ∧ 2 ≤ keepOf keep ∧ further.Sublist (q.2.purge keep).versions ∧
+          ∀ e ∈ further, ¬Required q.2 e.ver) ∧
+      (∀ rv ∈ (q.2.purge keep).versions, ∀ k, (rv.ver, k) ∈ q.2.disk → (rv.ver, k) ∈ (q.2.purge keep).disk) ∧
+      ListingSound (q.2.purge keep) := by
+  intro q hq
+  have hinv := reachable_inv ops q hq
+  refine ⟨?_, fun v hv => purge_keeps_required q.2 keep hinv.1 v hv, ?_, (purge_removes_only_unlisted q.2 keep hinv.1).1,
+    purge_listing_sound q.2 keep hinv.1 hinv.2.2.2⟩
+  · simp only [step, St.mapRes]
+    exact List.mem_map.mpr ⟨q, hq, rfl⟩
+  · intro hp
+    obtain ⟨f, h1, h2, _, h4, h5⟩ := purge_keeps_further q.2 keep hinv.1 hp
+    exact ⟨f, h1, h2, h4, h5⟩
+
 /-! ### Regenerated regex literals -/
 
 /-- The two regular expressions the hand-written matchers `matchFileVer` / `matchRawVersion` implement. -/
